@@ -259,6 +259,22 @@ PROPS = {
         "shards": {"quick": 4, "thorough": 16},
         "no_panic": [],
     },
+    "C19": {
+        "modules": ["Capnp.Props.C19"],
+        "gen": False,
+        "rule": "synthetic schemas registered at run time (1-3 data words, 1-6 scalar fields of every kind at any offset, random / boundary "
+                "defaults, with and without a union) with Go struct types built by reflection: pogs.Insert of random values into a zeroed struct, "
+                "the resulting data section and what pogs.Extract reads back (Which and every value) compared with the model; pogs.Extract on "
+                "random struct bytes compared with the model (M). Aircraftlib types (union Z with scalar, text, data, list, nested struct, enum and "
+                "group members; Defaults with []byte text; PlaneBase through three levels of anonymous embedding): round trip modulo nil/empty, "
+                "every generated accessor against the Go value, the same bytes whatever the inactive Go fields hold, leftovers in inactive slots "
+                "not read (S).",
+        "trusted": COMMON_TRUSTED + ["reflect.StructOf types stand for hand-written mapped structs", "pointer-typed fields, lists and nested structs are covered by the value stream only",
+                                     "Go struct field resolution (tags, embedding, Which) is reflect logic: sampled on the harness's types"],
+        "assumptions": ["NaN payloads are excluded (float32 <-> float64 conversions in reflect do not preserve them)"],
+        "shards": {"quick": 4, "thorough": 16},
+        "no_panic": ["pogs19 "],
+    },
     "C12": {
         "modules": ["Capnp.Props.C12"],
         "gen": False,
